@@ -379,6 +379,11 @@ func (e *Engine) dischargePath(fn *ssa.Function, po *pathOutcome, pathNo int, w 
 		case ob.Expect == "sat":
 			if verdict.Result == "sat" {
 				r.Verdict = "witness-ok"
+			} else if verdict.Result == "unsat" && ob.Kind == "reach" {
+				// a value the property requires to be possible is excluded for every input inside the bound
+				r.Verdict = "unconfirmed"
+				r.Note += " required outcome is unreachable for every input inside the bound (solver: unsat)"
+				e.confirmBySearch(fn, x, ob, r, opts)
 			} else if verdict.Result == "unsat" {
 				r.Verdict = "vacuous"
 			} else {
@@ -404,6 +409,11 @@ func (e *Engine) dischargePath(fn *ssa.Function, po *pathOutcome, pathNo int, w 
 			} else if full.Result == "sat" {
 				r.Model = full.Model
 				e.confirmNatively(fn, x, ob, r, opts)
+				if r.Verdict == "unconfirmed" && x.hasSearch(ob.ID) {
+					// the model's values enter through a stub that does not exist natively (e.g. the normal
+					// deviate of the Gaussian sampler): look for an end-to-end witness with the registered search
+					e.confirmBySearch(fn, x, ob, r, opts)
+				}
 			} else if full.Result == "unsat" {
 				r.Verdict = "discharged"
 				r.Note += " (sat only without unrelated assumptions; unsat with the full path condition)"
@@ -442,17 +452,20 @@ type NativeResult struct {
 
 // confirmBySearch looks for an end-to-end witness of a refuted engine-only lemma: the harness's registered native
 // search (vSearch) runs the real code on a deterministic battery of inputs.
+func (x *Exec) hasSearch(id string) bool {
+	for p := range x.searches {
+		if strings.HasPrefix(id, p+"-") || id == p {
+			return true
+		}
+	}
+	return false
+}
+
 func (e *Engine) confirmBySearch(fn *ssa.Function, x *Exec, ob *Obligation, r *OblResult, opts *RunOptions) {
 	if opts.SelfExe == "" || opts.ReplayDir == "" {
 		return
 	}
-	found := false
-	for p := range x.searches {
-		if strings.HasPrefix(ob.ID, p+"-") {
-			found = true
-		}
-	}
-	if !found {
+	if !x.hasSearch(ob.ID) {
 		r.Note += "; no native witness search registered for it"
 		return
 	}
